@@ -506,7 +506,8 @@ def _poisson_cases(c):
             slope = (hi + lo) / 2
             actual = rows * cols / cnt
             stalled = slope in (lo, hi)
-            groups += [rows * cols, cnt, 1 if stalled else 0]
+            an, ad = actual.as_integer_ratio()     # the double the code compares, exactly
+            groups += [an, ad, 1 if stalled else 0]
             if actual < R:
                 lo = slope
             else:
@@ -514,8 +515,8 @@ def _poisson_cases(c):
         last_frame = f == len(frames) - 1
         if res["err"] is None or not last_frame:
             final = res["count"][f] if res["err"] is None else counts[-1]
-            fr = Fraction(rows * cols, final)
-            ans = "ok 0 %d %d %d" % (len(counts), fr.numerator, fr.denominator)
+            fn, fd = (rows * cols / final).as_integer_ratio()
+            ans = "ok 0 %d %d %d" % (len(counts), fn, fd)
         else:
             ans = "ok 1 %d 0 1" % len(counts)
         yield {"line": line("bisect", [Rn, Rd, tn, td], groups), "impl": (lambda a=ans: a), "nontrivial": len(counts) >= 2,
